@@ -2,7 +2,7 @@
     Subject: Gen.Plan.fil_plan (the block arithmetic of FilReader.read_plan, regenerated from readers.py on
     every run) executed by Model/Plan.v (hand model of the loop body) on Model/Stream.v (C02). *)
 From Coq Require Import ZArith List Bool.
-Require Import SPP.Base.Rt SPP.Gen.Plan SPP.Model.Stream SPP.Model.Plan SPP.Proofs.C02_stream SPP.Proofs.C01_plan.
+Require Import SPP.Base.Rt SPP.Gen.Plan SPP.Gen.Kernels SPP.Model.Bits SPP.Model.Stream SPP.Model.Plan SPP.Model.PlanPacked SPP.Proofs.C02_stream SPP.Proofs.C01_plan SPP.Proofs.C01_packed.
 Import ListNotations.
 Open Scope Z_scope.
 
@@ -42,6 +42,25 @@ Theorem C01_stride_exact : forall nbits nchans n, In nbits [1; 2; 4; 8; 16; 32] 
   (n * nchans) * nbits / 8 = n * (nchans * nbits / 8) /\ ((n * nchans) * nbits) mod 8 = 0.
 Proof. exact stride_exact. Qed.
 Print Assumptions C01_stride_exact.
+
+(** packed depths (1, 2, 4 bits, nchans*nbits a multiple of 8): the blocks, each unpacked by the generated kernels into an arbitrary
+    reused buffer, stitch to exactly the unpacked samples [start, start+nsamps) of the set (sample k = bit field k mod (8/nbits) of
+    data byte k / (8/nbits), C03), for every split into files, gulp, in-range selection and skipback below the effective gulp *)
+Theorem C01_plan_sound_packed : forall fs nch nbits big N gulp0 start nsamps skipback0 junk,
+  In nbits [1; 2; 4] -> (nch * nbits) mod 8 = 0 -> 1 <= nch ->
+  1 <= nfiles fs -> total fs = N * samp_bytes nch nbits -> Forall is_byte (flat fs) ->
+  0 <= start -> 1 <= nsamps -> start + nsamps <= N -> 1 <= gulp0 -> Z.abs skipback0 < Z.min nsamps gulp0 ->
+  exists bl, run_plan_packed fs nch nbits big gulp0 start nsamps skipback0 junk = POk bl /\
+    stitch (Z.abs skipback0 * nch) bl = map (fun k => packed_sample fs nbits big (start * nch + k)) (zrange (nsamps * nch)) /\
+    Forall (block_ok nch gulp0) bl.
+Proof. exact plan_sound_packed. Qed.
+Print Assumptions C01_plan_sound_packed.
+
+Example C01_example_packed :
+  let fs := [mkfile [224] [27; 228]; mkfile [225] [177; 78]] in   (* 2-bit, 4 channels: one byte per sample *)
+  run_plan_packed fs 4 2 true 2 1 3 1 (fun _ => 9) = POk [(2, 0, [3; 2; 1; 0; 2; 3; 0; 1]); (2, 1, [2; 3; 0; 1; 1; 0; 3; 2])]
+  /\ total fs = 4 * samp_bytes 4 2 /\ Forall is_byte (flat fs).
+Proof. vm_compute. repeat split; try reflexivity; repeat constructor; discriminate. Qed.
 
 (** non-vacuity: two files, 7 samples of 2 channels, gulp 3, skipback 2 (more than half the gulp), sub-range [1,6) *)
 Example C01_example :
